@@ -89,6 +89,18 @@ CLAIMED["C02"] = {
     "ref": "DESIGN.md section 5 (C02)",
 }
 
+CLAIMED["C04"] = {
+    "text": "Proof: psutil.pids (ascending permutation of the listing), psutil.pid_exists (negative -> False, 0 -> "
+            "listing, never an exception), _psposix.pid_exists for ints of any size (incl. the OverflowError range), "
+            "_pslinux.pid_exists (thread IDs rejected through the Tgid line; loop invariant; fall-back to the listing). "
+            "process_iter()'s cache algebra (same object while listed, gone dropped, recycled replaced, cache_clear, "
+            "attrs keys, handles of live processes keep is_running()) is covered by an exhaustive bounded enumeration of "
+            "process-table histories against a reference model (labelled bounded).",
+    "note": "sorted()/os.kill library models; two threads iterating not covered; one recorded known finding "
+            "(C04-reused-skip, pinned by an existing test).",
+    "ref": "DESIGN.md section 5 (C04)",
+}
+
 NOT_YET = "check not built yet (work in progress, see DESIGN.md section 7)"
 NA = {}
 
